@@ -11,7 +11,7 @@
 let mism = ref 0
 let checked = ref 0
 let pairs = ref 0
-let nloops = ref 0 and ngroups = ref 0 and ntuneb = ref 0 and ntunet = ref 0 and nusers = ref 0 and nfits = ref 0
+let nloops = ref 0 and ngroups = ref 0 and ntuneb = ref 0 and ntunet = ref 0 and nusers = ref 0 and nfits = ref 0 and nwfits = ref 0 and nwties = ref 0
 let report what line =
   incr mism;
   if !mism <= 60 then Printf.printf "MISMATCH %s :: %s\n" what (if String.length line > 600 then String.sub line 0 600 ^ "..." else line)
@@ -188,6 +188,24 @@ let do_user line =
   if free && result <> "same" then report "model: conflict-free sharing pattern, implementation: result differs from the sequential one" line;
   if not free then report "model: the sharing pattern of this scenario conflicts (scenario bug?)" line
 
+(* ---- WFIT ------------------------------------------------------------------------------------------ *)
+(* weak-learner fit with a dataset pool of P workers vs one worker. The model (selection with the SOURCE's comparisons,
+   fit_select_src, proved schedule independent without ties) allows exactly two outcomes: the same (features, score), or -- when
+   two features have exactly the same score -- another feature with the SAME score (result=tie). A different score is excluded. *)
+let do_wfit line =
+  incr nwfits; incr checked;
+  let h = words line in
+  let result = kv h "result" in
+  let split_at s = match String.index_opt s '@' with
+    | Some i -> (String.sub s 0 i, String.sub s (i + 1) (String.length s - i - 1)) | None -> (s, "") in
+  let (rf, rs) = split_at (kv h "ref") and (gf, gs) = split_at (kv h "got") in
+  if rs <> gs then
+    report "model: the selected score is the minimum over all features for every assignment of features to workers (C18_fit_select_src_schedule_independent / C18_fit_select_minimal); implementation: the score differs from the one-worker fit" line
+  else if rf <> gf then begin
+    incr nwties;
+    if result <> "tie" then report "same score on other features must be classified as tie" line
+  end else if result <> "same" then report "same features and score but result is not `same`" line
+
 let () =
   (try
      while true do
@@ -200,10 +218,11 @@ let () =
           | "TUNET" -> do_tunet line
           | "USER" -> do_user line
           | "FIT" -> incr nfits
+          | "WFIT" -> do_wfit line
           | _ -> ()
         with Not_found | Failure _ | Invalid_argument _ -> report "unparsable line" line)
      done
    with End_of_file -> ());
   flush_group ();
-  Printf.printf "MODEL-DONE checked=%d mismatches=%d loops=%d groups=%d pairs=%d tunebatches=%d tunetables=%d users=%d fits=%d\n"
-    !checked !mism !nloops !ngroups !pairs !ntuneb !ntunet !nusers !nfits
+  Printf.printf "MODEL-DONE checked=%d mismatches=%d loops=%d groups=%d pairs=%d tunebatches=%d tunetables=%d users=%d fits=%d wfits=%d wties=%d\n"
+    !checked !mism !nloops !ngroups !pairs !ntuneb !ntunet !nusers !nfits !nwfits !nwties
